@@ -83,8 +83,50 @@ func throughCell(v ssa.Value) ssa.Value {
 
 // isLinesOf: v is recv.lines (possibly kept in a local variable).
 func isLinesOf(v ssa.Value, recv ssa.Value) bool {
-	f, ok := fieldLoadOf(throughCell(v), recv)
-	return ok && f == "lines"
+	v = throughCell(v)
+	if f, ok := fieldLoadOf(v, recv); ok && f == "lines" {
+		return true
+	}
+	// the table handed out by an accessor of the same file (`lines := f.lineStarts()`): a File method, called on this
+	// receiver, every return of which is File.lines of its own receiver — loaded, or the value it has just stored there
+	c, ok := v.(*ssa.Call)
+	if !ok {
+		return false
+	}
+	h := c.Call.StaticCallee()
+	if h == nil || h.Blocks == nil || h.Signature.Recv() == nil || len(c.Call.Args) != 1 || c.Call.Args[0] != recv || !isNamed(h.Signature.Recv().Type(), modRoot+"/token", "File") {
+		return false
+	}
+	hrecv := h.Params[0]
+	stored := map[ssa.Value]bool{}
+	for _, b := range h.Blocks {
+		for _, in := range b.Instrs {
+			if st, ok := in.(*ssa.Store); ok {
+				if fa, ok := st.Addr.(*ssa.FieldAddr); ok && fieldAddrName(fa) == "lines" && fa.X == ssa.Value(hrecv) {
+					stored[st.Val] = true
+				}
+			}
+		}
+	}
+	n := 0
+	for _, b := range h.Blocks {
+		ret, ok := b.Instrs[len(b.Instrs)-1].(*ssa.Return)
+		if !ok {
+			continue
+		}
+		n++
+		if len(ret.Results) != 1 {
+			return false
+		}
+		rv := ret.Results[0]
+		if f, ok := fieldLoadOf(rv, hrecv); ok && f == "lines" {
+			continue
+		}
+		if !stored[rv] {
+			return false
+		}
+	}
+	return n > 0
 }
 
 // isParamValue: v is the parameter, or a load of the cell the parameter lives in when a closure captures it (and
@@ -303,7 +345,7 @@ func (w *World) c20Funcs(r *Report) (position, resolve, initFn, str *ssa.Functio
 	done:
 	}
 	str = w.fn(w.Tok, "(*Position).String")
-	if position == nil || resolve == nil || initFn == nil || str == nil {
+	if (position == nil || resolve == nil || initFn == nil || str == nil) && r != nil {
 		r.errorf("token.(*File).Position / ResolvePos / init or (*Position).String not found")
 	}
 	return
@@ -613,7 +655,7 @@ func ruleC20R3(w *World, r *Report) {
 		}
 		if c, isCall := x.(*ssa.Call); isCall && k == -1 {
 			if bi, isB := c.Call.Value.(*ssa.Builtin); isB && bi.Name() == "len" {
-				if f, ok := fieldLoadOf(c.Call.Args[0], recv); ok && f == "lines" {
+				if isLinesOf(c.Call.Args[0], recv) {
 					okInit = true
 				}
 			}
@@ -791,7 +833,7 @@ func ruleC20R4(w *World, r *Report) {
 
 func ruleC20R5(w *World, r *Report) {
 	const rule = "C20/R5"
-	r.rule(rule, "every excerpt line of (*File).Position is Buffer[lines[l] : lines[l+1]-1] with l the resolved line or a counter running from the resolved line up to the resolved end line by one, and is numbered l+1; the line break between excerpt lines is written for every line after the first one of the excerpt (an excerpt helper called from Position is followed)", 2)
+	r.rule(rule, "every excerpt line of (*File).Position is Buffer[lines[l] : lines[l+1]-1] with l the resolved line or a counter running from the resolved line up to the resolved end line by one, and is numbered l+1; the line break between excerpt lines is written for every line after the first one of the excerpt (excerpt helpers called from Position are followed, line indexes through their parameters)", 1)
 	pf, resolve, _, _ := w.c20Funcs(r)
 	if pf == nil {
 		return
@@ -806,8 +848,12 @@ func ruleC20R5(w *World, r *Report) {
 		return ok && c.Call.StaticCallee() == resolve && len(c.Call.Args) == 2 && (c.Call.Args[1] == arg || clampOfParam(c.Call.Args[1], arg, recv))
 	}
 	// the line index used at a place of Position itself: the resolved line, or a counter from it to the end line
+	var through func(v ssa.Value, check func(ssa.Value) bool, depth int) bool
+	plusOneOK := false // the line itself is printed by another call of the same helper: the counter may start behind it
 	indexProblem := func(lb ssa.Value) string {
-		if resLine(lb, pos) {
+		isPosLine := func(x ssa.Value) bool { return resLine(x, pos) }
+		isEndLine := func(x ssa.Value) bool { return resLine(x, end) }
+		if through(lb, isPosLine, 0) {
 			return ""
 		}
 		phi, isPhi := lb.(*ssa.Phi)
@@ -817,13 +863,13 @@ func ruleC20R5(w *World, r *Report) {
 				x, k := plusConst(e)
 				if x == ssa.Value(phi) && k == 1 {
 					okStep = true
-				} else if resLine(x, pos) && k == 0 {
+				} else if (k == 0 || (k == 1 && plusOneOK)) && through(x, isPosLine, 0) {
 					okInit = true
 				}
 			}
 			for _, u := range referrers(phi) {
 				if c, ok := u.(*ssa.BinOp); ok {
-					if c.X == ssa.Value(phi) && resLine(c.Y, end) && c.Op == token.LEQ {
+					if c.X == ssa.Value(phi) && through(c.Y, isEndLine, 0) && c.Op == token.LEQ {
 						for _, uu := range referrers(c) {
 							if _, ok := uu.(*ssa.If); ok {
 								okBound = true
@@ -845,26 +891,65 @@ func ruleC20R5(w *World, r *Report) {
 	}
 	places := []place{{fn: pf}}
 	seenH := map[*ssa.Function]bool{pf: true}
-	for _, b := range pf.Blocks {
-		for _, in := range b.Instrs {
-			c, ok := in.(*ssa.Call)
-			if !ok {
-				continue
-			}
-			h := c.Call.StaticCallee()
-			if h == nil || h == resolve || h.Blocks == nil || h.Signature.Recv() == nil || !isNamed(h.Signature.Recv().Type(), modRoot+"/token", "File") || c.Call.Args[0] != ssa.Value(recv) {
-				continue
-			}
-			if !seenH[h] {
-				seenH[h] = true
-				places = append(places, place{fn: h})
-			}
-			for k := range places {
-				if places[k].fn == h {
-					places[k].calls = append(places[k].calls, c)
+	_, _, builder, _ := w.c20Funcs(nil)
+	for i := 0; i < len(places) && i < 8; i++ {
+		from := places[i].fn
+		for _, b := range from.Blocks {
+			for _, in := range b.Instrs {
+				c, ok := in.(*ssa.Call)
+				if !ok {
+					continue
+				}
+				h := c.Call.StaticCallee()
+				if h == nil || h == resolve || h == builder || h == pf || h.Blocks == nil || h.Signature.Recv() == nil || !isNamed(h.Signature.Recv().Type(), modRoot+"/token", "File") || c.Call.Args[0] != ssa.Value(from.Params[0]) {
+					continue
+				}
+				if !seenH[h] {
+					seenH[h] = true
+					places = append(places, place{fn: h})
+				}
+				for k := range places {
+					if places[k].fn == h {
+						places[k].calls = append(places[k].calls, c)
+					}
 				}
 			}
 		}
+	}
+	callsOf := func(fn *ssa.Function) []*ssa.Call {
+		for _, pl := range places {
+			if pl.fn == fn {
+				return pl.calls
+			}
+		}
+		return nil
+	}
+	// through: v satisfies check, or is a parameter of a helper every call of which passes a value that does
+	through = func(v ssa.Value, check func(ssa.Value) bool, depth int) bool {
+		if check(v) {
+			return true
+		}
+		prm, isP := stripConv(v).(*ssa.Parameter)
+		if !isP || depth > 4 || prm.Parent() == pf {
+			return false
+		}
+		pi := -1
+		for k, q := range prm.Parent().Params {
+			if q == prm {
+				pi = k
+			}
+		}
+		sites := callsOf(prm.Parent())
+		if pi < 0 || len(sites) == 0 {
+			return false
+		}
+		for _, c := range sites {
+			ab, ak := plusConst(c.Call.Args[pi])
+			if ak != 0 || !through(ab, check, depth+1) {
+				return false
+			}
+		}
+		return true
 	}
 	n := 0
 	for _, pl := range places {
@@ -921,8 +1006,17 @@ func ruleC20R5(w *World, r *Report) {
 							}
 						}
 						if pi < 0 {
-							problems = append(problems, "the line index of the helper is not one of its parameters")
+							// a counter of the helper itself (the excerpt loop moved out of Position)
+							if why := indexProblem(lb); why != "" {
+								problems = append(problems, why)
+							}
 						} else {
+							plusOneOK = false
+							for _, c := range pl.calls {
+								if ab, ak := plusConst(c.Call.Args[pi]); ak == 0 && through(ab, func(x ssa.Value) bool { return resLine(x, pos) }, 0) {
+									plusOneOK = true
+								}
+							}
 							for _, c := range pl.calls {
 								ab, ak := plusConst(c.Call.Args[pi])
 								if ak != 0 {
@@ -931,6 +1025,7 @@ func ruleC20R5(w *World, r *Report) {
 									problems = append(problems, why)
 								}
 							}
+							plusOneOK = false
 						}
 					}
 					// the number printed with it: a formatting call in the same function gets l+1
@@ -947,6 +1042,35 @@ func ruleC20R5(w *World, r *Report) {
 								}
 							}
 						}
+					}
+					if prm, isP := lb.(*ssa.Parameter); !hasNum && isP && len(pl.calls) > 0 {
+						// lineText(l) only cuts the line out: the number is printed where it is called
+						pi := -1
+						for k, q := range pl.fn.Params {
+							if q == prm {
+								pi = k
+							}
+						}
+						all := pi >= 0
+						for _, site := range pl.calls {
+							found := false
+							ab, _ := plusConst(site.Call.Args[pi])
+							for _, bb := range site.Parent().Blocks {
+								for _, x := range bb.Instrs {
+									if c, ok := x.(*ssa.Call); ok {
+										for _, o := range varargOperands(c) {
+											if ob, k1 := plusConst(o); k1 == 1 && ob == ab {
+												found = true
+											}
+										}
+									}
+								}
+							}
+							if !found {
+								all = false
+							}
+						}
+						hasNum = all
 					}
 					if !hasNum {
 						problems = append(problems, "the excerpt line is not printed with the number l+1")
